@@ -168,6 +168,26 @@ func packenvExec(c *Ctx, op string) {
 					c.PropFail("pack-env", fmt.Sprintf("PackMulti reports %s for %s; packed alone with the same filter it is %s", g, p, want), op)
 				}
 			}
+			// two specs for one path (another filter): the result has one id per path, so whichever it kept would depend on
+			// the listing order — it answers an error, in both orders
+			if len(parts) > 0 {
+				dup := parts[0]
+				dup.Filter = api.FilesetPackFilter_Flatten
+				var outs [2]string
+				for k, list := range [][]stitch.PackSpec{append(append([]stitch.PackSpec(nil), parts...), dup), append([]stitch.PackSpec{dup}, parts...)} {
+					var r map[api.AbsPath]api.WareID
+					_, e, pn := safeCall(func() (api.WareID, error) {
+						var e2 error
+						r, e2 = stitch.PackMulti(ctx, tartrans.Pack, osfs.New(fs.MustAbsolutePath(base)), list)
+						return api.WareID{}, e2
+					})
+					outs[k] = fmt.Sprintf("%s %s", resTok(api.WareID{}, e, pn), r[api.AbsPath(dup.Path.String())].Hash)
+				}
+				c.H("variant:packmulti-dup")
+				if !strings.HasPrefix(outs[0], "err") || !strings.HasPrefix(outs[1], "err") {
+					c.PropFail("pack-env", fmt.Sprintf("PackMulti with two specs (two filters) for %s answers %q when the second is listed last and %q when it is listed first", dup.Path, outs[0], outs[1]), op)
+				}
+			}
 		}
 	}
 	// history of the process: the same base path held another fileset a moment ago (packed by this very process), in
